@@ -150,7 +150,8 @@ type Instr struct {
 	T     []int   `json:"t,omitempty"`  // temporaries
 	Xs    []int   `json:"xs,omitempty"` // vector / matrix elements
 	Ys    []int   `json:"ys,omitempty"`
-	Par   float64 `json:"par,omitempty"` // alpha / GammaP a / Bessel v / SetFloat64 v
+	ParJ  JF      `json:"par,omitempty"` // alpha / GammaP a / Bessel v / SetFloat64 v (JSON form of Par)
+	Par   float64 `json:"-"`
 	K     int     `json:"k,omitempty"`   // Mlgamma k
 	I     int     `json:"i,omitempty"`   // SetVariable(i,n,order)
 	N     int     `json:"n,omitempty"`
